@@ -42,6 +42,9 @@ class Connection:
     previous = gfa._search_duplicate(self)
     if previous:
       if previous.virtual:
+        if previous.record_type not in [self.record_type, "\n"]:
+          # e.g. the identifier was mentioned as a segment, the line is not one
+          return self._process_not_unique(previous)
         return self._substitute_virtual_line(previous)
       else:
         return self._process_not_unique(previous)
